@@ -78,12 +78,14 @@ def main():
         else:
             na.append({"property_id": i, "reason": NOT_YET})
     man = {"version": 1,
-      "setup_cmd": f"{PY} -m pip install --no-index --find-links /opt/veriftools/wheels hypothesis >/dev/null 2>&1; {PY} tools/selftest.py",
+      "setup_cmd": f"{PY} -m pip install --no-index --find-links /opt/veriftools/wheels hypothesis >/dev/null 2>&1; "
+                   f"{PY} -m pip install --no-index --find-links /opt/veriftools/wheels --target /verif/.deps atheris >/dev/null 2>&1; "
+                   f"{PY} tools/selftest.py",
       "hooks": {"guard": "HASHSTORE_VERIF", "enable": "no source hooks: the machinery interposes at the Python/OS boundary (os.*, builtins.open, fcntl.flock, threading/multiprocessing primitives) from the test process; checks import /repo/src directly (editable install) so there is no build step",
                 "baseline_off_cmd": "cd /repo && /venv/bin/python -m pytest -ra -q -p no:cacheprovider --timeout=900 --continue-on-collection-errors",
                 "source_commits": [], "add_only": True},
       "engines": [{"name": "hsverif", "path": "/verif/hsverif", "serves_properties": [c["property_id"] for c in checks],
-                   "kind_free_text": "Hypothesis-driven property-based testing: model-based histories, owned thread schedules, crash-point and fault-site enumeration, differential checks"}],
+                   "kind_free_text": "Hypothesis-driven property-based testing: model-based histories, owned thread schedules, crash-point and fault-site enumeration, differential checks; thorough tier of C03 C04 C05 C06 C11 C17 C19 adds a coverage-guided campaign (atheris / libFuzzer over the same strategies and oracles)"}],
       "checks": checks, "not_applicable": na,
       "notes": "Every check: exit 0 = held on everything explored; exit 1 + 'VIOLATION property=<id> replay=<path>'; exit 2 = harness error. VERIF_SEED and VERIF_TIER are honoured. Known findings: /verif/known_findings.json."}
     json.dump(man, open(os.path.join(HERE, "MANIFEST.json"), "w"), indent=1)
